@@ -57,6 +57,11 @@ def behaviours(rng, n):
                 {"op": "notify", "ws": ["w1", "w2"]}, sub("w2", "u2"), {"op": "notify", "ws": ["w2", "w1"]}, {"op": "up", "u": "u1"},
                 {"op": "notify", "ws": ["w1", "w2"]}, {"op": "down", "u": "u2"}, sub("w1", "u2"), {"op": "up", "u": "u2"},
                 {"op": "notify", "ws": ["w1"]}])
+    # O-W1: the bytes of an earlier accepted request sent again bring the earlier endpoint back
+    rep = lambda w, u: {"op": "replay", "w": w, "u": u}
+    out.append([sub("w1", "u1"), sub("w1", "u2"), {"op": "notify", "ws": ["w1"]}, rep("w1", "u1"), {"op": "notify", "ws": ["w1"]},
+                {"op": "remove", "w": "w1"}, rep("w1", "u2"), {"op": "notify", "ws": ["w1", "w2"]}, rep("w2", "u1"), sub("w2", "u3"), rep("w1", "u1"),
+                {"op": "down", "u": "u1"}, {"op": "notify", "ws": ["w1", "w2"]}, rep("w2", "u3"), {"op": "up", "u": "u1"}, {"op": "notify", "ws": ["w1", "w2"]}])
     for perm in itertools.permutations(WALLETS):
         out.append([sub(w, URLS[i]) for i, w in enumerate(perm)] + [{"op": "notify", "ws": list(perm)}] +
                    [{"op": "remove", "w": perm[0]}, {"op": "notify", "ws": list(perm)}])
@@ -69,8 +74,10 @@ def behaviours(rng, n):
                 by = w if rng.random() < 0.6 else rng.choice(WALLETS)
                 shape = "ok" if rng.random() < 0.6 else rng.choice(SHAPES)
                 ops.append(sub(w, rng.choice(URLS), by=by, shape=shape))
-            elif r < 0.6:
+            elif r < 0.56:
                 ops.append({"op": "remove", "w": rng.choice(WALLETS)})
+            elif r < 0.64:
+                ops.append(rep(rng.choice(WALLETS), rng.choice(URLS)))
             elif r < 0.85:
                 k = rng.randint(1, 3)
                 ops.append({"op": "notify", "ws": rng.sample(WALLETS, k)})
